@@ -1,33 +1,78 @@
-(* C09: how M's output vocabulary maps to S's, and the executable trigger predicates of the recorded findings
-   (findings_proposed/C09.txt).  Each trigger characterises narrowly the inputs on which the corresponding defect of
-   ttconv/stl can show; the `_partial` theorems and the S-on-code evaluation of the check excuse exactly these. *)
+(* C09: how M's output vocabulary maps to S's (the observation relation between the document of Model/StlDatafile.v and
+   the presentation of Spec/Ebu3264Spec.v, used both by the theorems of Proofs/C09/File.v and - in its executable,
+   tolerance-aware form - by Model/StlCases.v), and the executable trigger predicate of the one finding that is still
+   recorded (df-23976; KNOWN_FINDINGS.txt).  The triggers of cumulative-before-first, tf-strip-not-cut, iso6937-a4,
+   comment-flag-ignored, blank-row-dropped, vp-zero-above-safe-area and tnb-zero-division were deleted when the
+   defects were repaired. *)
 From Coq Require Import QArith.
 From TT Require Import Base.Prelude Model.TimeCode Model.Iso6937 Model.StlTf Model.StlDatafile Spec.Ebu3264Spec.
 Open Scope Z_scope.
 
-(* ---- observation ------------------------------------------------------------------------------------ *)
+(* ---- observation: text ------------------------------------------------------------------------------- *)
 Definition attrs_of (s : style) : attrs := mkAttrs (s_fg s) (s_bg s) (s_italic s) (s_underline s).
 Definition piece_of_leaf (l : leaf) : piece :=
   match l with LRun s t => Run (attrs_of s) t | LBr => Break end.
 
-(* ---- text-field level -------------------------------------------------------------------------------- *)
-(* iso6937-a4: byte 0xA4 decoded with the Latin table *)
-Definition trigger_a4 (bs : list Z) : bool := existsb (fun b => b =? 164) bs.
-Definition latin_cct (cct : list Z) : bool :=
-  negb (bytes_eqb cct [48; 49] || bytes_eqb cct [48; 50] || bytes_eqb cct [48; 51] || bytes_eqb cct [48; 52]).
-Definition trigger_a4_cct (cct bs : list Z) : bool := latin_cct cct && trigger_a4 bs.
-
-(* blank-row-dropped: two consecutive new-line codes in a field without double height *)
-Definition trigger_blank_row (bs : list Z) : bool :=
-  let t := text_of_field bs in negb (double_height t) && adjacent_newlines t.
-
-(* tf-strip-not-cut: a text field in which something other than unused space follows an unused-space byte *)
-Fixpoint after_filler (bs : list Z) (seen : bool) : bool :=
-  match bs with
-  | [] => false
-  | b :: r => if b =? 143 then after_filler r true else seen || after_filler r seen
+(* ---- observation: configuration ------------------------------------------------------------------------ *)
+(* "hh:mm:ss:ff" *)
+Definition label_of_text (t : text) : option label :=
+  match t with
+  | [a; b; 58; c; d; 58; e; f; 58; g; h] =>
+      match two_digit a b, two_digit c d, two_digit e f, two_digit g h with
+      | Some hh, Some mm, Some ss, Some ff => Some (hh, mm, ss, ff)
+      | _, _, _, _ => None
+      end
+  | _ => None
   end.
-Definition trigger_strip (tf : list Z) : bool := after_filler tf false.
+Definition spec_start (c : start_tc) : option start_cfg :=
+  match c with
+  | StNone => Some StartNone
+  | StTCP => Some StartTCP
+  | StStr t => match label_of_text t with Some l => Some (StartLabel l) | None => None end
+  end.
+Definition spec_rows (c : max_rows_cfg) : rows_cfg :=
+  match c with MrNone => RowsDefault | MrMNR => RowsMNR | MrInt n => RowsInt n end.
+
+(* ---- observation: paragraphs ---------------------------------------------------------------------------- *)
+Definition align_code (a : alignment) : Z := match a with AlignStart => 0 | AlignCenter => 1 | AlignEnd => 2 end.
+
+Fixpoint leaves_of_items (its : list pitem) : option (list leaf) :=
+  match its with
+  | [] => Some []
+  | PLeaf l :: r => match leaves_of_items r with Some ls => Some (l :: ls) | None => None end
+  | PSub _ _ _ :: _ => None
+  end.
+Fixpoint parts_of_subs (its : list pitem) : option (list part) :=
+  match its with
+  | [] => Some []
+  | PSub b e ls :: r => match parts_of_subs r with Some ps => Some (mkPart b e (map piece_of_leaf ls) :: ps) | None => None end
+  | PLeaf _ :: _ => None
+  end.
+(* a paragraph of the document as timed parts: either the paragraph itself is timed and holds the runs, or it
+   holds timed spans only *)
+Definition parts_of_para (p : para) : option (list part) :=
+  match p_time p with
+  | Some (b, e) => match leaves_of_items (p_items p) with Some ls => Some [mkPart b e (map piece_of_leaf ls)] | None => None end
+  | None => parts_of_subs (p_items p)
+  end.
+
+Definition rect_of (r : region) : rect := mkRect (r_x r) (r_y r) (r_w r) (r_h r) (r_after r).
+Definition rect_equiv (a b : rect) : Prop :=
+  (x0 a == x0 b /\ y0 a == y0 b /\ width a == width b /\ height a == height b)%Q /\ align_after a = align_after b.
+
+(* a paragraph `p` of the document read (its region looked up in `regions`) presents the paragraph `g` of the
+   specification on a grid of `rows` rows: same alignment, the same timed parts (times, runs with their attributes,
+   line breaks - exactly), and a region that is the specification's top-anchored region of g's first row or the
+   bottom-anchored region of g's last row *)
+Definition para_matches (rows : Z) (regions : list region) (p : para) (g : paragraph) : Prop :=
+  p_align p = align_code (pg_align g) /\
+  parts_of_para p = Some (pg_parts g) /\
+  exists r, nth_error regions (Z.to_nat (p_region p)) = Some r /\ 0 <= p_region p /\
+            (rect_equiv (rect_of r) (top_anchored rows (pg_vp g)) \/
+             rect_equiv (rect_of r) (bottom_anchored rows (pg_vp g + pg_rows g - 1))).
+(* the divisions of the document are the specification's groups, paragraph by paragraph *)
+Definition doc_matches (rows : Z) (d : sdoc) (groups : list (list paragraph)) : Prop :=
+  Forall2 (Forall2 (para_matches rows (d_regions d))) (d_divs d) groups.
 
 (* ---- file level -------------------------------------------------------------------------------------- *)
 Definition gsi_of (file : list Z) : gsi := unpack_gsi (firstn 1024 file).
@@ -40,26 +85,14 @@ Fixpoint chunks (fuel : nat) (bs : list Z) : list (list Z) :=
   end.
 Definition tti_blocks (file : list Z) : list tti :=
   map unpack_tti (filter (fun c => Nat.eqb (length c) 128) (chunks (S (length file)) (skipn 1024 file))).
-Definition text_block (t : tti) : bool := negb ((239 <? t_ebn t) && (t_ebn t <? 255)).
-
-(* tnb-zero-division: TNB reads as 0 and there is at least one TTI block *)
-Definition trigger_tnb (file : list Z) : bool :=
-  match py_int (g_tnb (gsi_of file)) with Some 0 => negb (Nat.leb (length file) 1024) | _ => false end.
-
-(* comment-flag-ignored: a text-carrying block with CF = 1 *)
-Definition trigger_comment (file : list Z) : bool :=
-  existsb (fun t => text_block t && (t_cf t =? 1)) (tti_blocks file).
-
-Definition trigger_strip_file (file : list Z) : bool :=
-  existsb (fun t => text_block t && trigger_strip (t_tf t)) (tti_blocks file).
-
-Definition trigger_a4_file (file : list Z) : bool :=
-  latin_cct (g_cct (gsi_of file)) && existsb (fun t => text_block t && trigger_a4 (t_tf t)) (tti_blocks file).
+(* a block that carries subtitle text: not user data / reserved (EBN F0..FE), not a comment (CF = 1) *)
+Definition text_block (t : tti) : bool := negb ((239 <? t_ebn t) && (t_ebn t <? 255)) && negb (t_cf t =? 1).
 
 (* df-23976: 24000/1001 fps and a time address beyond the first minute (the drop-frame compensation is non-zero) *)
 Definition beyond_first_minute (l : label) : bool := let '(h, m, _, _) := l in negb ((h =? 0) && (m =? 0)).
+Definition is_stl23 (dfc : list Z) : bool := bytes_eqb dfc [83; 84; 76; 50; 51; 46; 48; 49].
 Definition trigger_23976 (file : list Z) (cfg : config) : bool :=
-  bytes_eqb (g_dfc (gsi_of file)) [83; 84; 76; 50; 51; 46; 48; 49] &&
+  is_stl23 (g_dfc (gsi_of file)) &&
   (existsb (fun t => text_block t && (beyond_first_minute (t_tci t) || beyond_first_minute (t_tco t))) (tti_blocks file) ||
    match cf_start cfg with
    | StNone => false
@@ -71,53 +104,5 @@ Definition trigger_23976 (file : list Z) (cfg : config) : bool :=
    | StStr t => match parse_tc t r23976 with Some (l, _) => beyond_first_minute l | None => false end
    end).
 
-(* the triggers that depend on the reader's state are evaluated along the run of M: `pred` sees the state
-   before the block, the block, the accumulated text field and whether the block passes the time tests *)
-Definition block_view (f : datafile) (s : state) (t : tti) : list Z * bool :=
-  let tf := (if st_in_ext s then st_tf s else []) ++ strip_8f (t_tf t) in
-  let b := (offset_q (f_fps f) (t_tci t) - f_start f)%Q in
-  let e := (offset_q (f_fps f) (t_tco t) - f_start f)%Q in
-  (tf, (t_ebn t =? 255) && negb (q_neg b) && negb (q_lt e b)).
-(* walks the file exactly as reader.to_model does (Model/StlDatafile.v read_blocks) *)
-Fixpoint scan (fuel : nat) (pred : state -> tti -> list Z -> bool -> bool) (f : datafile) (s : state) (bs : list Z) : bool :=
-  match fuel with
-  | O => false
-  | S k =>
-      match bs with
-      | [] => false
-      | _ =>
-          let buf := firstn 128 bs in
-          if negb (Nat.eqb (length buf) 128) then false else
-          let t := unpack_tti buf in
-          (text_block t && let '(tf, live) := block_view f s t in pred s t tf live) ||
-          match process_tti f s t with
-          | inl s' => if f_tti_count f =? 0 then false else scan k pred f s' (skipn 128 bs)
-          | inr _ => false
-          end
-      end
-  end.
-Definition scan_file (pred : state -> tti -> list Z -> bool -> bool) (file : list Z) (cfg : config) : bool :=
-  if negb (Nat.eqb (length (firstn 1024 file)) 1024) then false else
-  match init (gsi_of file) cfg with
-  | inl f => scan (S (length file)) pred f state0 (skipn 1024 file)
-  | inr _ => false
-  end.
-
-(* cumulative-before-first: a block that does not open a paragraph is completed while no paragraph exists *)
-Definition trigger_cumulative_first : list Z -> config -> bool :=
-  scan_file (fun s t _ live => live && negb ((t_cs t =? 0) || (t_cs t =? 1)) &&
-                               match st_cur s with None => true | Some _ => false end).
-
-Definition trigger_blank_row_file : list Z -> config -> bool :=
-  scan_file (fun _ t tf live => live && trigger_blank_row tf).
-
-(* vp-zero-above-safe-area: a paragraph is opened with VP = 0 and placed in a top-anchored region *)
-Definition trigger_vp_zero : list Z -> config -> bool :=
-  scan_file (fun _ t _ live => live && ((t_cs t =? 0) || (t_cs t =? 1)) && (t_vp t =? 0)).
-
-(* all of them, as a bit mask (bit i = i-th entry of FINDINGS in harness/c09.py) *)
-Definition trigger_mask (file : list Z) (cfg : config) : Z :=
-  (if trigger_cumulative_first file cfg then 1 else 0) + (if trigger_strip_file file then 2 else 0) +
-  (if trigger_23976 file cfg then 4 else 0) + (if trigger_a4_file file then 8 else 0) +
-  (if trigger_comment file then 16 else 0) + (if trigger_blank_row_file file cfg then 32 else 0) +
-  (if trigger_vp_zero file cfg then 64 else 0) + (if trigger_tnb file then 128 else 0).
+(* all recorded findings, as a bit mask (bit i = i-th entry of FINDINGS in harness/c09.py) *)
+Definition trigger_mask (file : list Z) (cfg : config) : Z := if trigger_23976 file cfg then 1 else 0.
